@@ -26,6 +26,7 @@ class Ctx:
         if not getattr(self.t, "wires_expanded", False):
             self.expand_wires()
             self.t.wires_expanded = True
+        self.alias_wires()
         self.groups, self.tir = {}, {}
         for d in self.t.drivers:
             tn = self.norm(d.target)
@@ -69,6 +70,104 @@ class Ctx:
             if not changed:
                 return
             self.t.drivers[:] = out
+
+    def alias_wires(self):
+        """A local combinational signal with exactly one, unconditional, whole-signal driver is another name for the value
+        assigned to it -- provided it is as wide as that value.  Width is verified in three cases (one-bit value and
+        one-bit wire; `Signal.like(<the value>)`; `Signal(<value>.shape())`); otherwise the wire is *opaque*: anything
+        compared through it is undecided, never a violation."""
+        whole, partial = {}, set()
+        for d_ in self.t.drivers:
+            tn = self.norm(d_.target)
+            if tn[0] == 'sig':
+                whole.setdefault(tn, []).append(d_)
+            else:
+                for x in ir.walk(tn):
+                    if x[0] == 'sig':
+                        partial.add(x)
+        self.opaque_wires = {}
+        # a wire that is indexed / sliced / measured anywhere is a vector the rules know by name: left alone
+        indexed = set()
+
+        def scan(e):
+            for x in ir.walk(e):
+                if x[0] == 'sub' and x[1][0] == 'sig':
+                    indexed.add(x[1])
+                if x[0] == 'call' and x[1] == ('name', 'len') and x[2] and x[2][0][0] == 'sig':
+                    indexed.add(x[2][0])
+        for d_ in self.t.drivers:
+            scan(ir.norm(d_.value, self.nctx))
+            scan(ir.norm(d_.target, self.nctx))
+            for fr in d_.dsl + d_.gen:
+                for part in fr[1:]:
+                    if isinstance(part, tuple) and part and isinstance(part[0], str):
+                        try:
+                            scan(ir.norm(part, self.nctx))
+                        except Exception:
+                            pass
+        for L in self.t.loops.values():
+            try:
+                scan(ir.norm(L.iter, self.nctx))
+            except Exception:
+                pass
+        for s, ds in whole.items():
+            if s in partial or s in indexed or len(ds) != 1 or ds[0].domain != 'comb' or ds[0].dsl:
+                continue
+            sig = self.t.sigs.get(s[1])
+            if sig is None or sig.ctor[0] != 'call':
+                continue
+            d_ = ds[0]
+            if [fr for fr in d_.gen if fr[0] == 'pyif'] != [fr for fr in sig.gen if fr[0] == 'pyif']:
+                continue                                    # driven only in some configurations
+            v = self.norm(d_.value)
+            if any(x == s for x in ir.walk(v)):
+                continue
+            ctor = sig.ctor
+            verified = False
+            if self.w.bit(s) and self.w.bit(v):
+                verified = True
+            elif ctor[1] == ('attr', ('name', 'Signal'), 'like') and ctor[2] and self.norm(ctor[2][0]) == v:
+                verified = True
+            elif ctor[1] == ('name', 'Signal') and ctor[2] and self.norm(ctor[2][0]) == self.norm(('call', ('attr', v, 'shape'), (), ())):
+                verified = True
+            if not verified and ctor[1] == ('name', 'Signal') and ctor[2]:
+                wv = self.declared_width(v)
+                if wv is not None and wv == self.norm(ctor[2][0]):
+                    verified = True
+            if verified:
+                self.nctx.aliases[s] = v
+            else:
+                self.opaque_wires[s] = v
+                self.nctx.aliases[s] = ('opaque', f"wire {s[2]} (= {ir.show(v)[:50]}; its width {ir.show(ctor)[:40]} is not verified against the value)")
+
+    def declared_width(self, e):
+        """Width of a value built from this component's own declared members with bitwise operators, as an expression over
+        self (constructor parameters are rewritten to the attribute the constructor stores them in); None if unknown."""
+        cls = self.fi.cls
+        if cls is None:
+            return None
+        if e[0] in ('nary', 'bin') and e[1] in ('&', '|', '^'):
+            ws = {self.declared_width(x) for x in (e[2] if e[0] == 'nary' else (e[2], e[3]))}
+            return ws.pop() if len(ws) == 1 and None not in ws else None
+        if e[0] == 'un' and e[1] == '~':
+            return self.declared_width(e[2])
+        if e[0] == 'attr' and e[1] == ('name', 'self'):
+            decls = self.idx.members(cls).get(e[2])
+            if not decls or len(decls) != 1 or decls[0][4]:
+                return None
+            shape = decls[0][1]
+            if shape[0] == 'call' and shape[1] == ('name', 'unsigned') and len(shape[2]) == 1:
+                shape = shape[2][0]
+            try:
+                ctor = get_ctor(self.idx, cls)
+            except Exception:
+                return None
+            p2a = {}
+            for k, (val, gen, ln) in ctor.stores.items():
+                if val[0] == 'name' and val[1] in ctor.fi.params and k.startswith("self."):
+                    p2a.setdefault(('name', val[1]), ir.parse(k))
+            return self.norm(ir.subst(shape, lambda x: p2a.get(x)))
+        return None
 
     def wire_default(self, s, depth=0):
         """Reset / default value of a local signal: init= of its constructor, the default of the signal it is `like`, else 0."""
@@ -207,6 +306,14 @@ def constructor_facts(idx, cls, prop_aliases):
     for key, (val, gen, ln) in cc.stores.items():
         if key.startswith("self._") and key.count(".") == 1 and pure(val):
             out[ir.parse(key)] = in_self_terms(val)
+    # a handle that exists only in some configurations: self._x = <object> if c else None  ==>  (self._x is None) == not c
+    for key, (val, gen, ln) in cc.stores.items():
+        if key.startswith("self._") and key.count(".") == 1 and val[0] == 'phi' and not gen:
+            c_, a_, b_ = val[1], val[2], val[3]
+            if b_ == ('const', None) and a_[0] == 'call':
+                out[('cmp', 'is', ir.parse(key), ('const', None))] = in_self_terms(('un', 'not', c_))
+            elif a_ == ('const', None) and b_[0] == 'call':
+                out[('cmp', 'is', ir.parse(key), ('const', None))] = in_self_terms(c_)
     for name, decls in idx.members(cls).items():
         flow, shape, conds, ln, arr = decls[0]
         # the shape as the constructor computed it (locals substituted)
@@ -385,7 +492,18 @@ class CtorCtx(Ctx):
         for c in self.t.calls:
             e = c[0]
             if e[0] == 'store':
-                self.stores[ir.show(self.norm(e[1]))] = (self.norm(e[2]), c[1], c[3])
+                key = ir.show(self.norm(e[1]))
+                val = self.norm(e[2])
+                prev = self.stores.get(key)
+                if prev is not None:
+                    # the two arms of one `if`: self.x = A under c, self.x = B under not c  ->  phi(c, A, B)
+                    g0, g1 = prev[1], c[1]
+                    if len(g0) == len(g1) and g0[:-1] == g1[:-1] and g0 and g0[-1][0] == 'pyif' and g1[-1][0] == 'pyif' and \
+                            g0[-1][1] == g1[-1][1] and g0[-1][2] != g1[-1][2]:
+                        a_, b_ = (prev[0], val) if g0[-1][2] else (val, prev[0])
+                        self.stores[key] = (self.norm(('phi', g0[-1][1], a_, b_)), g0[:-1], c[3])
+                        continue
+                self.stores[key] = (val, c[1], c[3])
 
     def stored(self, text):
         r = self.stores.get(ir.show(self.parse(text)))
